@@ -22,6 +22,8 @@ MODELS = {
     ("ver", "thorough"): "MC_Graph_ver_t.cfg",
     ("shape", "quick"): "MC_Graph_shape_q.cfg",
     ("shape", "thorough"): "MC_Graph_shape_t.cfg",
+    ("dup", "quick"): "MC_Graph_dup_q.cfg",
+    ("dup", "thorough"): "MC_Graph_dup_t.cfg",
 }
 
 
@@ -180,7 +182,8 @@ def run_property(prop, tier, report):
     # tracks, shared implicit imports, explicit imports on a track) with the packages pre-registered
     # shape: encode-relevant shapes (import-less package, repeated instantiation, type items,
     # anonymous compound tuple element), creation operations only
-    libs = ["core", "ver", "shape"]
+    # dup: versions of one package, exports of one instance sharing a function type, a compound result type
+    libs = ["core", "ver", "shape", "dup"]
     total_states = total_trans = 0
     summaries = {}
     samples = []
@@ -198,7 +201,7 @@ def run_property(prop, tier, report):
     tsum = {}
     if prop in ("C06", "C01"):
         # implementation -> specification: long random histories over more nodes than TLC explores
-        for lib in libs:
+        for lib in libs[:3]:
             tf, ts = traces(lib, tier)
             report.add_findings([f for f in tf if f["class"] in CLASSES[prop]], f"graph-trace-{lib}")
             tsum[lib] = ts
